@@ -595,6 +595,13 @@ class _Holder:
     pass
 
 
+INDIRECT_RULE = ('; plus the INDIRECT family: for ~60 small base contexts the same observation on the context / lattice obtained through 13 other '
+                 'public routes (fromjson(raw=True) of a fully permuted serialisation by path and by file object, fromdict(todict()), pickled / '
+                 'deep-copied / shallow-copied lattice, pickled context, Context(*Definition), copy(), count cells, str/None cells, '
+                 'fromstring(tostring()), make_context of cxt text); label schemes include one-character names, for which arguments are also '
+                 'passed as a plain str; one context with 520 objects (two incomparable extents of 260)')
+
+
 def indirect_impls(cx, seed):
     """The same context / lattice obtained through other public entry points: (tag, impl) pairs, impl being a
     Context or a (Context, Lattice) pair; a failing constructor yields the exception."""
@@ -605,7 +612,10 @@ def indirect_impls(cx, seed):
     import tempfile
     import os
     import concepts
-    base = util.make_context(cx)
+    try:
+        base = util.make_context(cx)
+    except Exception as e:  # noqa: BLE001
+        return [('Context(objects, properties, bools)', e)]
     h = _Holder()
     h.ctx, h.r = base, rnd_for(cx, seed + 77)
     out = []
@@ -615,9 +625,14 @@ def indirect_impls(cx, seed):
             out.append((tag, fn()))
         except Exception as e:  # noqa: BLE001
             out.append((tag, e))
-    name, d = permuted_serialisations(h)[1]
+    try:
+        name, d = permuted_serialisations(h)[1]
+    except Exception as e:  # noqa: BLE001
+        name, d = 'serialisation failed', e
 
     def json_file_raw():
+        if isinstance(d, Exception):
+            raise d
         fd, path = tempfile.mkstemp(suffix='.json')
         os.close(fd)
         try:
@@ -627,7 +642,7 @@ def indirect_impls(cx, seed):
         finally:
             os.unlink(path)
     add('fromjson(path, raw=True) of a fully permuted serialisation', json_file_raw)
-    add('fromjson(StringIO, raw=True)', lambda: concepts.Context.fromjson(io.StringIO(json.dumps(d)), raw=True))
+    add('fromjson(StringIO, raw=True)', lambda: concepts.Context.fromjson(io.StringIO(json.dumps(None if isinstance(d, Exception) else d)), raw=True))
     add('fromdict(todict())', lambda: concepts.Context.fromdict(base.todict()))
     add('pickled lattice', lambda: (base, pickle.loads(pickle.dumps(base.lattice))))
     add('deep-copied lattice', lambda: (base, copy.deepcopy(base.lattice)))
@@ -728,7 +743,7 @@ def module(prop, theorems, rule, extra_targets=(), exh=(9, 12), rnd=(200, 1500),
 
     return {
         'TARGETS': [f'Properties/{prop}.vo', f'Run/Obs{prop}.vo'] + list(extra_targets),
-        'THEOREMS': theorems, 'RUN_MODULE': f'Run.Obs{prop}', 'RULE': rule, 'SHARD_SIZE': 120,
+        'THEOREMS': theorems, 'RUN_MODULE': f'Run.Obs{prop}', 'RULE': rule + INDIRECT_RULE, 'SHARD_SIZE': 120,
         'EXHAUSTIVE': {'quick': False, 'thorough': False},
         'cases': cases, 'case_from_replay': case_from_replay, 'shrink_candidates': shrink_candidates,
         'distribution': util.distribution, 'PARTIAL': partial, 'TRUSTED_EXTRA': list(trusted_extra),
